@@ -1,6 +1,7 @@
 package c19
 
 import (
+	"os"
 	"strings"
 	"testing"
 
@@ -45,6 +46,9 @@ func matrixCases() []*c19Case {
 	for _, spec := range opSpecs {
 		if spec.Carrier == "none" {
 			continue
+		}
+		if only := os.Getenv("C19_OPS"); only != "" && !strings.Contains(","+only+",", ","+spec.Name+",") {
+			continue // development aid, never set by the driver
 		}
 		encs := []string{"-"}
 		if spec.Carrier == "path" {
